@@ -144,3 +144,128 @@ Theorem C14_iteration_is_insertion_order :
     exists p new, fst (step s o) = filter p s ++ new /\ (length new <= 1)%nat.
 Proof. exact iteration_is_insertion_order. Qed.
 Print Assumptions C14_iteration_is_insertion_order.
+
+(* ---- translator tie: the methods of class Headers, regenerated from
+   /repo/poorwsgi/headers.py on every run (gen/HeadersGen.v, by
+   harness/py2v_headers.py over lib/PyHeaders.v), equal the model's
+   operations.  Domain: the stored list is [emb_state s] for EVERY model
+   state s, the arguments are the images of EVERY value of the model's
+   argument types (str, bytes, None, int; negotiation list or tuple;
+   **kwargs dict; constructor input None / list / tuple / set / dict /
+   other object).  [emb_step (step s o)] = (the stored list afterwards,
+   the value returned or the exception raised); it is compared also when
+   the method raises. *)
+Require Import PW.lib.PyHeaders PW.gen.HeadersGen PW.proofs.HeadersGenEq.
+
+Theorem C14_generated_getitem_is_model :
+  forall s n, gen_getitem (emb_arg n) (emb_state s) =
+              emb_step (step s (OGetItem n)).
+Proof. exact gen_getitem_is_model. Qed.
+Print Assumptions C14_generated_getitem_is_model.
+
+Theorem C14_generated_delitem_is_model :
+  forall s n, gen_delitem (emb_arg n) (emb_state s) =
+              emb_step (step s (ODel n)).
+Proof. exact gen_delitem_is_model. Qed.
+Print Assumptions C14_generated_delitem_is_model.
+
+Theorem C14_generated_get_all_is_model :
+  forall s n, gen_get_all (emb_arg n) (emb_state s) =
+              emb_step (step s (OGetAll n)).
+Proof. exact gen_get_all_is_model. Qed.
+Print Assumptions C14_generated_get_all_is_model.
+
+Theorem C14_generated_add_is_model :
+  forall s n v, gen_add (emb_arg n) (emb_arg v) (emb_state s) =
+                emb_step (step s (OAdd n v)).
+Proof. exact gen_add_is_model. Qed.
+Print Assumptions C14_generated_add_is_model.
+
+Theorem C14_generated_setitem_is_model :
+  forall s n v, gen_setitem (emb_arg n) (emb_arg v) (emb_state s) =
+                emb_step (step s (OSet n v)).
+Proof. exact gen_setitem_is_model. Qed.
+Print Assumptions C14_generated_setitem_is_model.
+
+Theorem C14_generated_setdefault_is_model :
+  forall s n v, gen_setdefault (emb_arg n) (emb_arg v) (emb_state s) =
+                emb_step (step s (OSetdefault n v)).
+Proof. exact gen_setdefault_is_model. Qed.
+Print Assumptions C14_generated_setdefault_is_model.
+
+(* value: a plain argument or a negotiation list (tup = false) / tuple
+   (tup = true); ps: the keyword parameters *)
+Theorem C14_generated_add_header_is_model :
+  forall s n tup v ps,
+    gen_add_header (emb_arg n) (emb_hval tup v) (emb_params ps) (emb_state s) =
+    emb_step (step s (OAddHeader n v ps)).
+Proof. exact gen_add_header_is_model. Qed.
+Print Assumptions C14_generated_add_header_is_model.
+
+(* Headers(c) -- strict defaults to True (gen_init_default_2 is the default
+   value in the source); k: list, tuple or set *)
+Theorem C14_generated_init_is_model :
+  forall s k c,
+    gen_init (emb_ctor emb_arg k c) gen_init_default_2 (emb_state s) =
+    emb_step (step s (OInit c)).
+Proof. exact gen_init_is_model. Qed.
+Print Assumptions C14_generated_init_is_model.
+
+(* Headers(c, strict=False), c holding str pairs *)
+Theorem C14_generated_init_raw_is_model :
+  forall s k c,
+    gen_init (emb_ctor VStr k c) (VBool false) (emb_state s) =
+    emb_step (step s (OInitRaw c)).
+Proof. exact gen_init_raw_is_model. Qed.
+Print Assumptions C14_generated_init_raw_is_model.
+
+Theorem C14_generated_len_is_model :
+  forall s, gen_len (emb_state s) = emb_step (step s OLen).
+Proof. exact gen_len_is_model. Qed.
+Print Assumptions C14_generated_len_is_model.
+
+Theorem C14_generated_names_is_model :
+  forall s, gen_names (emb_state s) = emb_step (step s ONames).
+Proof. exact gen_names_is_model. Qed.
+Print Assumptions C14_generated_names_is_model.
+
+Theorem C14_generated_keys_is_model :
+  forall s, gen_keys (emb_state s) = emb_step (step s ONames).
+Proof. exact gen_keys_is_model. Qed.
+Print Assumptions C14_generated_keys_is_model.
+
+Theorem C14_generated_values_is_model :
+  forall s, gen_values (emb_state s) = emb_step (step s OValues).
+Proof. exact gen_values_is_model. Qed.
+Print Assumptions C14_generated_values_is_model.
+
+Theorem C14_generated_items_is_model :
+  forall s, gen_items (emb_state s) = emb_step (step s OItems).
+Proof. exact gen_items_is_model. Qed.
+Print Assumptions C14_generated_items_is_model.
+
+(* the inherited collections.abc.Mapping.get / __contains__ (fixed
+   definitions of lib/PyHeaders.v) over the generated __getitem__ *)
+Theorem C14_generated_get_is_model :
+  forall s n, PyHeaders.mapping_get gen_getitem (emb_arg n) VNone (emb_state s) =
+              emb_step (step s (OGet n)).
+Proof. exact mapping_get_is_model. Qed.
+Print Assumptions C14_generated_get_is_model.
+
+Theorem C14_generated_contains_is_model :
+  forall s n, mapping_contains gen_getitem (emb_arg n) (emb_state s) =
+              emb_step (step s (OContains n)).
+Proof. exact mapping_contains_is_model. Qed.
+Print Assumptions C14_generated_contains_is_model.
+
+(* every operation, and every history of operations on one object *)
+Theorem C14_generated_step_is_model :
+  forall k tup s o, gen_step k tup o (emb_state s) = emb_step (step s o).
+Proof. exact gen_step_is_model. Qed.
+Print Assumptions C14_generated_step_is_model.
+
+Theorem C14_generated_run_is_model :
+  forall k tup ops s,
+    gen_run k tup (emb_state s) ops = map emb_step (run s ops).
+Proof. exact gen_run_is_model. Qed.
+Print Assumptions C14_generated_run_is_model.
